@@ -709,3 +709,98 @@ def only_rejects(stmts, cls=None, depth: int = 0) -> bool:
             return False
         return False
     return True
+
+
+def reject_probes(chk, rule: str, f, probes, what: str, free=None):
+    """Argument validation must not reject what the property says is legal: the function is specialised (constant folding over its
+    own statements, nothing runs) for each probe -- a dict of parameter values at the ends of the legal range -- and a probe that
+    ends in `raise` is a violation.  A probe that cannot be specialised up to the first effect gives no verdict (the validation, if
+    any, sits behind something the folder cannot evaluate)."""
+    repo, folder = ctx(chk)
+    n_dec = 0
+    bad = None
+    for env in probes:
+        e2 = dict(env)
+        r = partial_eval(folder, f.node, f.mod, f.cls, e2, None, 0, None, free)
+        if r[0] == "raise":
+            bad = bad or (env, r[1])
+        if r[0] in ("raise", "return"):
+            n_dec += 1
+    desc = ", ".join(f"{k}={v!r}" if not isinstance(v, int) or isinstance(v, bool) else f"{k}={v:#x}" for k, v in (bad[0].items() if bad else []))
+    chk.check(bad is None, rule, f"{f.key} | {what} accepted", f.loc(),
+              f"for {desc} the function raises {bad[1] if bad else ''} before doing anything: a legal value at the end of the range is rejected",
+              f"specialised for {len(probes)} boundary probes ({n_dec} decided)")
+
+
+def guarded_raise_probes(chk, rule: str, f, ff, var: str, values, what: str, only_fresh_of=None):
+    """No `raise` of the function is reached for a legal value of `var`: for every raise statement the conditions in force that
+    speak about `var` alone (and constants) are evaluated for each legal value; if they all hold for one, that value is refused.
+    Facts that mention anything else are left out (they can only make the raise rarer), so the verdict errs toward reporting only
+    when the conditions about `var` are the only ones, i.e. a validation of `var`."""
+    repo, folder = ctx(chk)
+    sc = Scope(f.mod, f.cls)
+    n_r = 0
+    for r in [n for n in own_nodes(f.node) if isinstance(n, ast.Raise)]:
+        facts = ff.facts_at(r)
+        mine, other = [], []
+        for e, p in facts:
+            names = {x.id for x in ast.walk(e) if isinstance(x, ast.Name)}
+            free = {nm for nm in names if nm != var and folder.try_fold(ast.Name(id=nm, ctx=ast.Load()), sc, _NOVAL) is _NOVAL and nm not in ("range", "int", "len", "isinstance", "str", "float", "bool")}
+            (other if free or var not in names else mine).append((e, p))
+        if not mine or other:
+            continue
+        n_r += 1
+        g = conj_of_facts(mine)
+        for v in values:
+            val = folder.try_fold(substitute_src(g, {var: v}), sc, _NOVAL)
+            if val is not _NOVAL and val:
+                chk.bad(rule, f"{f.key} | {what} accepted", f.loc(r),
+                        f"`{src(r)[:70]}` is reached for {var} = {v!r} (conditions {[(src(e), p) for e, p in mine]}): a legal value is refused")
+                return
+    chk.ok(rule, f"{f.key} | {what} accepted", f.loc(), f"{n_r} validations of {var} evaluated at {list(values)}")
+
+
+_NOVAL = object()
+
+
+def guarded_raise_envs(chk, rule: str, f, ff, envs, what: str):
+    """Like guarded_raise_probes for several quantities at once: `envs` is a list of {source text: value} bindings describing legal
+    situations (e.g. {'self._blksize': 10, 'ackseq': 10, 'blksize': 4}).  A raise is reached in a legal situation when every
+    condition in force that can be evaluated under the binding holds, at least one of them mentions a bound quantity, and every
+    condition that cannot be evaluated is the failed guard of an earlier rejection (the situation passed that validation)."""
+    repo, folder = ctx(chk)
+    sc = Scope(f.mod, f.cls)
+    from ..canon import negate
+    exits = set()
+    for n in own_nodes(f.node):
+        if isinstance(n, ast.If) and always_exits(n.body):
+            exits.add(ff.norm(n.test, subst=False))
+            # a chained / conjunctive guard is recorded by the facts as its parts
+            t_ = negate(copy.deepcopy(n.test))
+            for part in (t_.values if isinstance(t_, ast.BoolOp) and isinstance(t_.op, ast.And) else [t_]):
+                exits.add(ff.norm(negate(copy.deepcopy(part)), subst=False))
+    n_r = 0
+    for r in [n for n in own_nodes(f.node) if isinstance(n, ast.Raise)]:
+        facts = ff.facts_at(r)
+        for env in envs:
+            ok, mentions = True, False
+            for e, p in facts:
+                val = folder.try_fold(substitute_src(e, env), sc, _NOVAL)
+                if val is _NOVAL:
+                    # the condition that would have held in the rejecting branch
+                    rej = ff.norm(e, subst=False) if not p else ff.norm(negate(copy.deepcopy(e)), subst=False)
+                    if rej not in exits:
+                        ok = False
+                        break
+                    continue
+                if any(k in src(e) for k in env):
+                    mentions = True
+                if bool(val) != p:
+                    ok = False
+                    break
+            if ok and mentions:
+                chk.bad(rule, f"{f.key} | {what} accepted", f.loc(r),
+                        f"`{src(r)[:70]}` is reached for {env} (conditions {[(src(e), p) for e, p in facts]}): a legal situation is refused")
+                return
+        n_r += 1
+    chk.ok(rule, f"{f.key} | {what} accepted", f.loc(), f"{n_r} raise statements evaluated for {len(envs)} legal situations")
